@@ -9,7 +9,6 @@ package main
 import (
 	"fmt"
 	"regexp"
-	"strings"
 )
 
 var iteCondRe = regexp.MustCompile(`\(ite (\|edge![0-9]+\|)`)
@@ -48,5 +47,5 @@ func solveByCases(ob *Obligation, text string, o SolveOpts) (solveResult, bool) 
 			return solveResult{}, false
 		}
 	}
-	return solveResult{status: "unsat", solver: "cases(" + strings.Join(conds, ",") + ")", secs: total}, true
+	return solveResult{status: "unsat", solver: fmt.Sprintf("z3-5.1.0 case split on %d merge condition(s)", len(conds)), secs: total}, true
 }
